@@ -12,20 +12,41 @@
 //!   [6] the operation panicked      [7,k] subscribed, k = index of the new subscriber
 //!   [9,g]      get() returned g              [10,k] cloned, k = index of the new handle
 //!   [0] done (drops, notify)
+//! Every stream is polled with its OWN counting waker; "tokio_w"/"smol_w" list, per operation, the
+//! subscribers whose waker was woken while the operation ran (ascending; 1000000 = the one-shot
+//! stream).  A stream whose poll returned Pending relies on that wake-up to be polled again.
 use serde_json::{json, Value};
 use std::io::{BufRead, Write};
 use std::panic::{catch_unwind, AssertUnwindSafe};
 use std::pin::Pin;
 use std::task::Poll;
+use std::sync::atomic::{AtomicU64, Ordering};
+use std::sync::Arc;
+use std::task::{Context, Wake, Waker};
 use zv::*;
+
+/// Counts the calls of wake / wake_by_ref.
+struct CW(AtomicU64);
+impl Wake for CW {
+    fn wake(self: Arc<Self>) {
+        self.0.fetch_add(1, Ordering::SeqCst);
+    }
+    fn wake_by_ref(self: &Arc<Self>) {
+        self.0.fetch_add(1, Ordering::SeqCst);
+    }
+}
+fn new_waker() -> (Arc<CW>, Waker) {
+    let c = Arc::new(CW(AtomicU64::new(0)));
+    (c.clone(), Waker::from(c))
+}
 
 macro_rules! driver {
     ($name:ident, $m:path) => {
-        fn $name(ops: &[Value]) -> Vec<Vec<u64>> {
+        fn $name(ops: &[Value]) -> (Vec<Vec<u64>>, Vec<Vec<u64>>) {
             use futures_util::Stream as _;
             use $m as nt;
-            fn poll(s: &mut nt::Stream<u64>) -> Vec<u64> {
-                let mut cx = std::task::Context::from_waker(std::task::Waker::noop());
+            fn poll(s: &mut nt::Stream<u64>, w: &Waker) -> Vec<u64> {
+                let mut cx = Context::from_waker(w);
                 match Pin::new(s).poll_next(&mut cx) {
                     Poll::Pending => vec![3],
                     Poll::Ready(None) => vec![4],
@@ -46,12 +67,18 @@ macro_rules! driver {
             let (once, once_stream) = nt::Once::<u64>::new();
             let mut once = Some(once);
             let mut once_stream = once_stream;
+            let (once_cnt, once_waker) = new_waker();
             let mut subs: Vec<Option<nt::Stream<u64>>> = Vec::new();
+            let mut wakers: Vec<(Arc<CW>, Waker)> = Vec::new();
             let mut out = Vec::new();
+            let mut wakes = Vec::new();
             for op in ops {
                 let a = op.as_array().unwrap();
                 let arg = a.get(1).and_then(|x| x.as_u64()).unwrap_or(0);
                 let arg2 = a.get(2).and_then(|x| x.as_u64()).unwrap_or(0);
+                let before: Vec<u64> = wakers.iter().map(|w| w.0 .0.load(Ordering::SeqCst)).collect();
+                let once_before = once_cnt.0.load(Ordering::SeqCst);
+                let dropped_now = if a[0].as_str() == Some("dropsub") { Some(arg as usize) } else { None };
                 let r = catch_unwind(AssertUnwindSafe(|| match a[0].as_str().unwrap() {
                     "set" => match handles.get_mut(arg as usize) {
                         Some(Some(st)) => {
@@ -73,6 +100,7 @@ macro_rules! driver {
                     "sub" => match handles.get(arg as usize) {
                         Some(Some(st)) => {
                             subs.push(Some(st.stream()));
+                            wakers.push(new_waker());
                             vec![7, subs.len() as u64 - 1]
                         }
                         _ => vec![5],
@@ -93,7 +121,7 @@ macro_rules! driver {
                         _ => vec![5],
                     },
                     "poll" => match subs.get_mut(arg as usize) {
-                        Some(Some(s)) => poll(s),
+                        Some(Some(s)) => poll(s, &wakers[arg as usize].1),
                         _ => vec![5],
                     },
                     "dropsub" => match subs.get_mut(arg as usize) {
@@ -117,12 +145,22 @@ macro_rules! driver {
                         }
                         None => vec![5],
                     },
-                    "pollonce" => poll(&mut once_stream),
+                    "pollonce" => poll(&mut once_stream, &once_waker),
                     x => panic!("bad op {x}"),
                 }));
                 out.push(r.unwrap_or_else(|_| vec![6]));
+                let mut w: Vec<u64> = Vec::new();
+                for (i, b) in before.iter().enumerate() {
+                    if wakers[i].0 .0.load(Ordering::SeqCst) > *b && dropped_now != Some(i) {
+                        w.push(i as u64);
+                    }
+                }
+                if once_cnt.0.load(Ordering::SeqCst) > once_before {
+                    w.push(1000000);
+                }
+                wakes.push(w);
             }
-            out
+            (out, wakes)
         }
     };
 }
@@ -142,8 +180,13 @@ fn main() {
         }
         let case: Value = serde_json::from_str(&line).unwrap();
         let ops = case["ops"].as_array().unwrap();
-        let t = run_tokio(ops);
-        let s = run_smol(ops);
-        writeln!(w, "{}", json!({"id": case["id"], "tokio": t, "smol": s})).unwrap();
+        let (t, tw) = run_tokio(ops);
+        let (s, sw) = run_smol(ops);
+        writeln!(
+            w,
+            "{}",
+            json!({"id": case["id"], "tokio": t, "smol": s, "tokio_w": tw, "smol_w": sw})
+        )
+        .unwrap();
     }
 }
